@@ -217,7 +217,9 @@ func init() {
 				}
 			}
 			// truncated / malformed percent-escapes at the very end of a host, an IPv6 literal or a zone
-			for _, host := range []string{"example.co%6", "example.co%", "example.co%zz", "example.co%6g", "ex%2", "%", "%4", "a%4g", "%41", "[fe80::1%25en%6]", "[fe80::1%25]", "[fe80::1%25en%]", "[fe80::1%2]", "[::1%6]", "h%6:80", "h:80%6", "u@h%6"} {
+			for _, host := range []string{"example.co%6", "example.co%", "example.co%zz", "example.co%6g", "ex%2", "%", "%4", "a%4g", "%41", "[fe80::1%25en%6]", "[fe80::1%25]", "[fe80::1%25en%]", "[fe80::1%2]", "[::1%6]", "h%6:80", "h:80%6", "u@h%6",
+				// IPv6 literals with colons in every odd place
+				"[1:2:3:4:5:6:7:]", "[fe80::1:]", "[1:]", "[:]", "[:1]", "[::]", "[:::]", "[1::]", "[::1:]", "[fe80::1:%25eth0]", "[1:2:3:4:5:6:7:]:80", "[1:2:3:4:5:6:7:8:]", "[1:2:3:4:5:6:1.2.3.4:]", "[::ffff:1.2.3.]", "[1:2:3:4:5:6:7::]", "[]", "[%25]", "[g::]"} {
 				for _, f := range []string{"http://%s/", "//%s", "%s/x", "http://%s", "https://%s?q", "http://%s#f"} {
 					emit("uri", []byte(fmt.Sprintf(f, host)), []byte{0}, []byte{0})
 				}
